@@ -375,6 +375,15 @@ impl<'e> Sim<'e> {
         let held: Vec<u32> = self.world.held_k.iter().map(|k| k.tok).chain(self.world.held_v.iter().map(|v| v.tok)).collect();
         let mut findings = Vec::new();
         let post = self.observe_all(&mut findings);
+        if matches!(op.kind, OpKind::CloneTo) && self.relaxed.is_none() {
+            // a clone that is not even a coherent cache (or whose links point into the source)
+            // is not "an equal and fully independent cache"
+            let o = 1 - t;
+            let extra: Vec<(usize, ObsClass, String)> = findings.iter().filter(|f| f.0 == o && matches!(f.1, ObsClass::Walk | ObsClass::Mirror | ObsClass::Token)).cloned().collect();
+            for (_, _, m) in extra {
+                self.push(C14, "clone-incoherent", format!("the clone is not a coherent cache of its own: {}", m));
+            }
+        }
         self.map_findings(findings, at_fault_step);
         self.ledger_viols("during observation after the operation");
 
